@@ -66,6 +66,7 @@ func checkC17(p *Prog, res *Result, tier string) {
 	res.rule("C17-R8", "an engine with native TTL (where the expiry worker is disabled, R5) expires every record of an event: each write form hands the ttl to the engine (C11-R10)", 6)
 	res.rule("C17-R7", "every adapter compares before it deletes in its compare-and-delete (C11-R1): expiry relies on it for index records", 3)
 	res.rule("C17-R6", "expiry deletes follow the worker's failed-delete discipline with the record's user key, so that an event is removed wholly or its remaining records are left alone (C07-R4)", 2)
+	res.rule("C17-R9", "the index record and the version record of one write carry the same TTL: an Event expires wholly", 4)
 	res.rule("C17-R5", "expiry disabled on engines with native TTL; TTL handed to the engine only on the classified branch", 2)
 
 	prefixF := p.structField("pkg/backend", "Config", "Prefix")
@@ -684,6 +685,22 @@ func checkC17(p *Prog, res *Result, tier string) {
 			}
 		}
 	}
+	// ---- R9: index record and version expire together ----
+	for _, vb := range p.versionedBatches() {
+		if vb.cond == nil || vb.cond.TTL == nil || vb.put.TTL == nil {
+			continue
+		}
+		construct := vb.b.name() + ctxName(p, vb.ctx) + ": index record and version record are written with the same TTL"
+		a, b := p.ctxValue(vb.cond.TTL, vb.ctx), p.ctxValue(vb.put.TTL, vb.ctx)
+		ka, oka := constInt(resolve(a))
+		kb, okb := constInt(resolve(b))
+		if sameVal(a, b) || (oka && okb && ka == kb) {
+			res.ok("C17-R9", construct, p.pos(vb.put.Call.Pos()), "one TTL value for both operations of the batch")
+		} else {
+			res.bad("C17-R9", construct, p.pos(vb.put.Call.Pos()), "the index record and the version record of one write get different TTLs: on an engine with native TTL one of them outlives the other - an expired Event still reads as present (version without index: a create then succeeds over a key that reads as present) or a present one can no longer be updated")
+		}
+	}
+
 	// ---- R6: the failed-delete discipline on the expiry chains (C07-R4) ----
 	if !c17NoImports {
 		sub7 := p.subResult("C07", tier)
@@ -705,7 +722,7 @@ func checkC17(p *Prog, res *Result, tier string) {
 			if o.Rule == "C11-R5" && strings.HasSuffix(o.Construct, ".DelCurrent") {
 				res.add("C17-R7", o.Rule+" "+o.Construct, o.Status, o.Pos, o.Detail)
 			}
-			if o.Rule == "C11-R10" {
+			if o.Rule == "C11-R10" || o.Rule == "C11-R15" {
 				res.add("C17-R8", o.Rule+" "+o.Construct, o.Status, o.Pos, o.Detail)
 			}
 		}
